@@ -397,8 +397,20 @@ class Engine:
         return SBool(self, v)
 
     def choice(self, name: str, n: int) -> int:
-        """A symbolic value in range(n), immediately realised (one path each)."""
-        return self.int(name, 0, n - 1).realise()
+        """A symbolic value in range(n), made concrete by bisection on solver-decided
+        comparisons (one path per feasible value, O(log n) decisions each)."""
+        if n <= 0:
+            raise Infeasible()
+        x = self.int(name, 0, n - 1)
+        lo, hi = 0, n - 1
+        while lo < hi:
+            mid = (lo + hi) // 2
+            if x <= mid:
+                hi = mid
+            else:
+                lo = mid + 1
+        x._val = lo
+        return lo
 
     def flag(self, name: str) -> bool:
         return bool(self.bool(name))
